@@ -144,6 +144,11 @@ def stepChain (pr : ChainProg) (toks : List String) : ChainProg × String :=
     let keys := (kvOf rest "keys").splitOn ","
     let (s, ups) := initState rest mods keys
     ({ st := some s }, s!"ok ups={showUps ups} | {showState s}")
+  | "mon.glue" :: _ =>
+    -- an implementation-side monitor (genesis validation, error results): nothing for the model to do
+    match pr.st with
+    | none => (pr, "dead")
+    | some _ => (pr, "done")
   | "mon.query" :: _ =>
     -- an implementation-side monitor (store queries through the ABCI interface): nothing for the model to do
     match pr.st with
